@@ -46,6 +46,21 @@ def closure_ret(p, clo):
     return flow.simplify_term(flow.Terms(p, cb).place(0, (), r[0], "t")) if len(r) == 1 else None
 
 
+def presence_selection(t, pred):
+    """for a selection γ(test){..} whose test is a presence test of a value satisfying pred:
+    ({True: value when present, False: value when absent}, the tested value)"""
+    sel, subj = {}, None
+    if isinstance(t, tuple) and t and t[0] == "gamma":
+        for l, v in t[2]:
+            r = flow.presence_test(t[1], l)
+            if r is not None and r[1] is not None:
+                s = [x for x in flow._subjects(r[0], True) if pred(x)]
+                if s:
+                    sel[r[1]] = v
+                    subj = s[0]
+    return sel, subj
+
+
 def run(chk):
     p = core.load_program("all")
     chk.configs = ["all-features"]
@@ -237,13 +252,15 @@ def run(chk):
         ag = find_aggs(ga, "Response")
         if chk.require("R7 assertion user handle", "R7|Response", len(ag) == 1, where(ga), "Response construction not found"):
             bb, i, rv = ag[0]
-            u = flow.simplify_term(T.operand(rv["ops"][rv["fields"].index("user")], bb, i))
-            ok = is_call(u, "Option::map") and u[2][0][0] == "field" and u[2][0][2] == "user_handle"
-            r = closure_ret(p, u[2][1]) if ok else None
-            idok = r is not None and r[0] == "agg" and dict(r[3]).get("id") == ("param", 2)
-            cred = flow.simplify_term(T.operand(rv["ops"][rv["fields"].index("credential")], bb, i))
-            same = ok and has(cred, lambda x: x == u[2][0][1])
-            chk.ob("R7 assertion user handle", "R7|get_assertion|user-iff-handle", bool(ok and idok), where(ga, bb), "Response.user = %s ; closure builds %s" % (flow.term_str(u)[:140], flow.term_str(r)[:100] if r else "?"))
+            u = N.inline(T.operand(rv["ops"][rv["fields"].index("user")], bb, i))
+            is_handle = lambda x: isinstance(x, tuple) and len(x) == 3 and x[0] == "field" and x[2] == "user_handle"
+            sel, handle = presence_selection(u, is_handle)
+            ok = set(sel) == {True, False} and sel[False] == normal.NONE and sel[True][0] == "agg" and sel[True][2] == "Some"
+            ent = dict(sel[True][3]).get("0") if ok else None
+            idok = ent is not None and ent[0] == "agg" and dict(ent[3]).get("id") == ("payload", handle)
+            cred = N.inline(T.operand(rv["ops"][rv["fields"].index("credential")], bb, i))
+            same = ok and handle is not None and has(cred, lambda x: x == handle[1])
+            chk.ob("R7 assertion user handle", "R7|get_assertion|user-iff-handle", bool(ok and idok), where(ga, bb), "Response.user = %s" % flow.term_str(u)[:260])
             chk.ob("R7 assertion user handle", "R7|get_assertion|handle-of-used-credential", bool(same), where(ga, bb), "user handle and Response.credential derive from the same credential: %s" % same)
     au = ceremony(p, "authenticate", adt=CLIENT)
     if chk.require("R7 assertion user handle", "R7|authenticate", au, CLIENT, "Client::authenticate not found"):
@@ -252,10 +269,11 @@ def run(chk):
         ag = find_aggs(au, "AuthenticatorAssertionResponse")
         if chk.require("R7 assertion user handle", "R7|client-response", len(ag) == 1, where(au), "AuthenticatorAssertionResponse construction not found"):
             bb, i, rv = ag[0]
-            u = flow.simplify_term(T.operand(rv["ops"][rv["fields"].index("user_handle")], bb, i))
-            ok = is_call(u, "Option::map") and u[2][0][0] == "field" and u[2][0][2] == "user" and has(u[2][0], lambda x: is_call(x, "Authenticator::get_assertion"))
-            r = closure_ret(p, u[2][1]) if ok else None
-            chk.ob("R7 assertion user handle", "R7|authenticate|user_handle", bool(ok and r == ("field", ("param", 2), "id")), where(au, bb), "user_handle = %s ; closure returns %s" % (flow.term_str(u)[:140], flow.term_str(r) if r else "?"))
+            u = N.inline(T.operand(rv["ops"][rv["fields"].index("user_handle")], bb, i))
+            is_user = lambda x: isinstance(x, tuple) and len(x) == 3 and x[0] == "field" and x[2] == "user" and has(x, lambda y: is_call(y, "Authenticator::get_assertion"))
+            sel, user = presence_selection(u, is_user)
+            ok = set(sel) == {True, False} and sel[False] == normal.NONE and sel[True] == normal.some(("field", ("payload", user), "id"))
+            chk.ob("R7 assertion user handle", "R7|authenticate|user_handle", bool(ok), where(au, bb), "user_handle = %s" % flow.term_str(u)[:200])
 
     # ---------------- composition over the finite product (table algebra)
     if T1 and T2 and t3_ok:
